@@ -72,6 +72,10 @@ func runC06(c *Ctx) {
 		r.ArgValues("C06-S6", u, an.Call("raft.IExtRaftStorage.CreateSnapshot"), 2, []string{"data"}, 1)
 	}
 	hllWriteBack(c, "C06-S6")
+	// the snapshot goroutine reads the checkpoint result only after the checkpoint is complete (same rule as C14-B2)
+	if u := c.unit("C06-S6", "rockredis.(*BackupInfo).GetResult"); u != nil {
+		r.Order("C06-S6", u, an.Return(), []an.M{an.Recv("recv.done")}, an.OrderOpts{Min: 1})
+	}
 	if u := c.unit("C06-S6", "node.(*raftNode).beginSnapshot"); u != nil {
 		// the engine checkpoint is requested synchronously (outside the goroutine), see also C14-B2
 		r.Order("C06-S6", u, an.AnyCall().Where("go statement", func(u *an.Unit, s *an.Site) bool { return s.Go }),
